@@ -502,15 +502,18 @@ edition = "2021"
 
 [workspace]
 
+# release semantics (no overflow checks, no debug assertions) at a low optimisation level: large corpus enums make
+# a fully optimised build of the harness crate take tens of minutes
 [profile.release]
 debug = false
+opt-level = 1
+codegen-units = 16
 """ % (pid.lower(), crate_name(pid), ", ".join('"%s"' % x for x in features)))
-    ok = True
-    for prof in ([], ["--release"]):
+    ok = {}
+    for name, prof in (("dev", []), ("release", ["--release"])):
         rc, out, to, _ = run(["cargo", "build", "--offline"] + prof,
-                             cwd=os.path.join(cdir, "replay"), timeout=1200, env=env, log=log)
-        if rc != 0:
-            ok = False
+                             cwd=os.path.join(cdir, "replay"), timeout=900, env=env, log=log)
+        ok[name] = (rc == 0 and not to)
     _native_built[key] = ok
     return ok
 
@@ -518,12 +521,13 @@ debug = false
 def native_replay(cdir, pid, full_name, vals, log, features=()):
     """Run the harness natively (dev and release) on concrete values.
     Returns dict profile -> {'outcome': 'returned'|'panicked'|'assume_violated'|'error', 'message': str}"""
-    if not native_build(cdir, pid, log, features):
-        return {"dev": {"outcome": "error", "message": "native build failed"},
-                "release": {"outcome": "error", "message": "native build failed"}}
+    built = native_build(cdir, pid, log, features)
     hexvals = ",".join(v.hex() for v in vals)
     out = {}
     for prof, sub in (("dev", "debug"), ("release", "release")):
+        if not built.get(prof):
+            out[prof] = {"outcome": "error", "message": "native %s build failed or timed out" % prof, "rc": None}
+            continue
         exe = os.path.join(native_target_dir(), sub, "replay_" + pid.lower())
         try:
             p = subprocess.run([exe, full_name, hexvals], capture_output=True, text=True, timeout=60, errors="replace")
